@@ -22,7 +22,8 @@ func (prop) Rule() string {
 		"Go oracle (model-free): size = bytes written, every read returns exactly content[off:off+min(len,size-off)], sequential reads follow the oracle's own cursor, JoinReadAll returns the content. " +
 		"Encrypted mode: the runner reads the random keys and padding bytes back from the 64-byte references / stored chunks (own keystream implementation) and annotates `sum` with them; the model (EncUpload.upload) " +
 		"recomputes every address with real Keccak: compared are the full reference, the Put count and multiset digest, size and every read (through the decrypting getter model). Fixed encrypted cases: empty file, 1 byte, C, C+1, C+100; " +
-		"`new encsmall c b` (real encryption/bmt/store/hashtrie writers with small chunk size and branching, writer side only) reaches trees with two and three intermediate levels. " +
+		"`new encsmall c b` (real encryption/bmt/store/hashtrie writers with small chunk size and branching, writer side only) reaches trees with two and three intermediate levels; " +
+		"`new synth seed size period` serves the canonical encrypted tree of a 1 GiB + 3C + 1000 byte periodic file chunk by chunk on demand (fake addresses, position-derived keys) to the real joiner / decrypting getter and to the reader model: reads across and beyond the 1 GiB boundary (two intermediate levels with the real constants). " +
 		"Go oracle, encrypted: stored chunks have 8+C bytes and are cac.Valid, decrypted data chunks equal the written bytes (enc-leaf-content), plus all read-back clauses. " +
 		"Non-trivial: opened and >= 1 read of a non-empty file; distinct by op-list hash. Multi-chunk cases limited in number (Lean-side hashing cost)."
 }
@@ -94,6 +95,16 @@ func (prop) Gen(r *core.Rand, tier string) []core.Case {
 		core.Case{ID: "fix-encsmall-two-levels", NT: true, Ops: []string{"new encsmall 64 2", "write g:21:150", "sum", "open"}},
 		core.Case{ID: "fix-encsmall-three-levels", NT: true, Ops: []string{"new encsmall 32 2", "writeseg g:22:131 7", "sum"}},
 	)
+	// reader on an encrypted tree with two intermediate levels (> 4096 chunks, 1 GiB + 3 chunks + 1000 bytes),
+	// served on demand by a synthetic store (real joiner and decrypting getter; no upload)
+	{
+		G := 4096 * C
+		size := G + 3*C + 1000
+		cs = append(cs, core.Case{ID: "fix-enc-synth-two-levels", NT: true, Ops: []string{
+			fmt.Sprintf("new synth 7 %d 4096", size), "open", "size",
+			fmt.Sprintf("readat %d 300 300", G-100), fmt.Sprintf("readat %d 1000 1000", G+C+5), "readat 12345 10 10",
+			"seek 500 2", "read 300 300", "read 300 300", "read 1 1", fmt.Sprintf("seek %d 0", G), "read 7 7"}})
+	}
 	nEncSmall := 3
 	if tier == "thorough" {
 		nEncSmall = 20
